@@ -147,6 +147,11 @@ type c16Running struct {
 	shape map[string]string
 	done  chan c16CallEnd
 	held  bool
+	// a strategy that returns with the first node's answer lets the call come back while its request to the gated
+	// node is still on its way to the gate: the lines Return and Held of one call are written under this lock, and
+	// Held only while the call is in flight
+	mu   sync.Mutex
+	back bool
 }
 
 // c16Protected runs f in a goroutine of its own under recover and reports a panic as (text, frame, decoder).
@@ -289,11 +294,14 @@ func c16RunHistory(log *c16Log, f *os.File, sc c16Scenario) {
 			}()
 			res := in.Invoke(cctx, st.Call, st.Shape)
 			over()
+			r.mu.Lock()
+			r.back = true
 			if res.Outcome == "undeliverable" {
 				line("Undeliverable", c16Line{"call": st.Call, "detail": c16Short(res.Detail, 160)})
 			} else {
 				line("Return", c16Line{"call": st.Call, "outcome": res.Outcome, "detail": c16Short(res.Detail, 160)})
 			}
+			r.mu.Unlock()
 			r.done <- c16CallEnd{}
 		}()
 		return r
@@ -320,8 +328,12 @@ func c16RunHistory(log *c16Log, f *os.File, sc c16Scenario) {
 			if overlap {
 				select {
 				case <-gate.Held():
-					r.held = true
-					line("Held", c16Line{"call": st.Call})
+					r.held = true // a request is at the gate and has to be let go at the Await step
+					r.mu.Lock()
+					if !r.back {
+						line("Held", c16Line{"call": st.Call})
+					}
+					r.mu.Unlock()
 				case e := <-r.done:
 					// it came back without passing the gate (an address that cannot be parsed, ...)
 					gate.Disarm()
